@@ -56,6 +56,13 @@ func (f *Frame) execInstr(ins ssa.Instruction, st *State) {
 		} else {
 			u.storeObjZero(st, et, ref)
 		}
+		// ghost fields of a new object start at their zero value (empty set, 0, false)
+		for _, g := range u.eng.Specs.GhostFields {
+			if gi := u.eng.ghostOf(et, g.Name); gi != nil {
+				z := u.zeroVal(gi.typ).T
+				u.write(st, gi.key, ref, func(h T) T { return sto(h, ref, z) }, gi.sort)
+			}
+		}
 		f.set(x, p)
 	case *ssa.FieldAddr:
 		p := f.val(x.X)
